@@ -49,3 +49,7 @@ where
 
     Ok(())
 }
+
+#[cfg(kani)]
+#[path = "/verif/hooks/core/scr.rs"]
+mod verif_hooks;
